@@ -372,6 +372,68 @@ theorem rootH_memoStep (h : HashFn) : ∀ f hp a,
           simp only [ne_eq, hm, not_false_eq_true, if_true]
           exact ⟨MemoStep.refl hp, fun y hy => by cases hy⟩
 
+theorem ureach_of_memoStep {hp hp1 : Heap} (ms : MemoStep hp hp1) {x y : Nat}
+    (hu : UReach hp1 x y) : UReach hp x y := by
+  have back : ∀ {z l r : Nat}, hp1[z]? = some (Cell.pair z0 l r) → hp[z]? = some (Cell.pair z0 l r) := by
+    intro z l r e
+    rcases ms z with e1 | ⟨l', r', v, e0, e1⟩
+    · rw [← e1]; exact e
+    · rw [e] at e1
+      simp only [Option.some.injEq, Cell.pair.injEq] at e1
+      obtain ⟨_, rfl, rfl⟩ := e1
+      exact e0
+  induction hu with
+  | here l r e => exact .here l r (back e)
+  | left l r e _ ih => exact .left l r (back e) ih
+  | right l r e _ ih => exact .right l r (back e) ih
+
+/-- without any hypothesis on the hash: every cell `MerkleRoot` writes is reached from `a` through
+    pairs with unset memo, and every cell it does not write is unchanged -/
+theorem rootH_writes_ureach (h : HashFn) : ∀ f hp a,
+    (∀ y, y ∈ (rootH h f hp a).2.2.writes → UReach hp a y)
+      ∧ ∀ y, y ∉ (rootH h f hp a).2.2.writes → (rootH h f hp a).2.1[y]? = hp[y]? := by
+  intro f
+  induction f with
+  | zero => intro hp a; exact ⟨fun y hy => (by cases hy), fun _ _ => rfl⟩
+  | succ f ih =>
+    intro hp a
+    cases ha : hp[a]? with
+    | none => rw [rootH, ha]; exact ⟨fun y hy => (by cases hy), fun _ _ => rfl⟩
+    | some c =>
+      cases c with
+      | leaf r => rw [rootH, ha]; exact ⟨fun y hy => (by cases hy), fun _ _ => rfl⟩
+      | pair m l r =>
+        by_cases hm : m = z0
+        · subst hm
+          rw [rootH_unset h ha]
+          obtain ⟨w1, k1⟩ := ih hp l
+          obtain ⟨w2, k2⟩ := ih (rootH h f hp l).2.1 r
+          have ms1 := (rootH_memoStep h f hp l).1
+          have hwr : ∀ y, y ∈ (Trace.one a Acc.read ++ (rootH h f hp l).2.2
+              ++ (rootH h f (rootH h f hp l).2.1 r).2.2 ++ (Trace.mk 1 [(a, Acc.write)])).writes ↔
+              (y ∈ (rootH h f hp l).2.2.writes ∨ y ∈ (rootH h f (rootH h f hp l).2.1 r).2.2.writes) ∨ y = a := by
+            intro y
+            rw [Trace.writes_app, Trace.writes_app, Trace.writes_app, Trace.writes_read,
+              Trace.writes_hash, List.nil_append, List.mem_append, List.mem_append,
+              List.mem_singleton]
+          constructor
+          · intro y hy
+            rcases (hwr y).mp hy with (h1 | h2) | rfl
+            · exact .left l r ha (w1 y h1)
+            · exact .right l r ha (ureach_of_memoStep ms1 (w2 y h2))
+            · exact .here l r ha
+          · intro y hy
+            have hn : ¬ ((y ∈ (rootH h f hp l).2.2.writes
+                ∨ y ∈ (rootH h f (rootH h f hp l).2.1 r).2.2.writes) ∨ y = a) := fun e => hy ((hwr y).mpr e)
+            show (Array.setIfInBounds _ a _)[y]? = _
+            rw [Array.getElem?_setIfInBounds]
+            have hya : ¬ a = y := fun e => hn (.inr e.symm)
+            simp only [hya, if_false]
+            rw [k2 y (fun e => hn (.inl (.inr e))), k1 y (fun e => hn (.inl (.inl e)))]
+        · rw [rootH, ha]
+          simp only [ne_eq, hm, not_false_eq_true, if_true]
+          exact ⟨fun y hy => (by cases hy), fun _ _ => (by first | rfl | trivial)⟩
+
 /-! ### sequencing -/
 
 theorem run_poke_ok (h : HashFn) {a : Nat} {r r0 : Root} (k : Unit → Prog α) {hp : Heap}
@@ -849,6 +911,54 @@ theorem run_memoClosed (h : HashFn) (hz : NoZeroOut h) {p : Prog α} (hnp : NoPo
       exact ih _ _ (WF_sameStruct (rootH_sameStruct h _ hp a) hw)
         (rootH_memoClosed h hz hw hc (Nat.lt_succ_self a))
     · rw [run_root_bad h _ ha]; exact hc
+
+/-! ### a poke-free client changes old cells only by filling unset memos -/
+
+/-- old cells are unchanged or were unset pairs whose memo got filled -/
+def FillOld (hp hp' : Heap) : Prop :=
+  hp.size ≤ hp'.size ∧ ∀ y : Nat, y < hp.size →
+    hp'[y]? = hp[y]? ∨ ∃ l r v, hp[y]? = some (Cell.pair z0 l r) ∧ hp'[y]? = some (Cell.pair v l r)
+
+theorem FillOld.refl (hp : Heap) : FillOld hp hp := ⟨Nat.le_refl _, fun _ _ => .inl rfl⟩
+
+theorem FillOld.trans {a b c : Heap} (h1 : FillOld a b) (h2 : FillOld b c) : FillOld a c := by
+  refine ⟨Nat.le_trans h1.1 h2.1, fun y hy => ?_⟩
+  rcases h2.2 y (Nat.lt_of_lt_of_le hy h1.1) with e2 | ⟨l, r, v, e2, e2'⟩
+  · rw [e2]; exact h1.2 y hy
+  · rcases h1.2 y hy with e1 | ⟨l', r', v', e1, e1'⟩
+    · exact .inr ⟨l, r, v, by rw [← e1]; exact e2, e2'⟩
+    · rw [e2] at e1'
+      simp only [Option.some.injEq, Cell.pair.injEq] at e1'
+      obtain ⟨_, rfl, rfl⟩ := e1'
+      exact .inr ⟨l, r, v, e1, e2'⟩
+
+theorem fillOld_push (hp : Heap) (c : Cell) : FillOld hp (hp.push c) :=
+  ⟨by simp, fun _ hy => .inl (get_push_lt c hy)⟩
+
+theorem fillOld_of_memoStep {hp hp' : Heap} (hs : hp.size = hp'.size) (ms : MemoStep hp hp') :
+    FillOld hp hp' := ⟨Nat.le_of_eq hs, fun y _ => ms y⟩
+
+theorem run_fillOld (h : HashFn) {p : Prog α} (hnp : NoPoke p) : ∀ hp, FillOld hp (run h p hp).2.1 := by
+  induction hnp with
+  | ret a => intro hp; exact FillOld.refl hp
+  | allocLeaf r k _ ih => intro hp; exact (fillOld_push hp _).trans (ih hp.size _)
+  | allocPair l r k _ ih =>
+    intro hp
+    by_cases hlr : l < hp.size ∧ r < hp.size
+    · rw [run_allocPair_ok h _ hlr.1 hlr.2]
+      exact (fillOld_push hp _).trans (ih hp.size _)
+    · rw [run_allocPair_bad h _ hlr]; exact FillOld.refl hp
+  | read a k _ ih =>
+    intro hp
+    cases ha : hp[a]? with
+    | none => rw [run_read_none h _ ha]; exact ih none hp
+    | some c => rw [run_read_some h _ ha]; exact ih _ hp
+  | root a k _ ih =>
+    intro hp
+    by_cases ha : a < hp.size
+    · rw [run_root_ok h _ ha]
+      exact (fillOld_of_memoStep (rootH_size h _ hp a).symm (rootH_memoStep h (a+1) hp a).1).trans (ih _ _)
+    · rw [run_root_bad h _ ha]; exact FillOld.refl hp
 
 /-- a hash function that may return the zero root (used by the counterexample of C07) -/
 def zeroHash : HashFn := fun _ _ => z0
